@@ -9,6 +9,7 @@
  *   P <s> <v>        a `call` stores return address id v into slot s                -> "P"
  *   E <k> <s>        mcount_entry(&slot[s], f<k>+4, regs)                           -> "E <ret> <errno_ok>"
  *   N                nothing (an entry that is not instrumented)                    -> "N"
+ *   Z                next case: clear all slots and the dummy slot (mtd.idx must be 0)  -> "Z"
  *   CE <k> <p>       __cyg_profile_func_enter(f<k>, (void *)p)                      -> "CE <errno_ok>"
  *   CX <k> <p>       __cyg_profile_func_exit(f<k>, (void *)p)                       -> "CX <errno_ok>"
  *   R <s>            return through slot s: while it holds mcount_return_fn run mcount_exit and
@@ -141,6 +142,11 @@ int main(int argc, char **argv)
 		}
 		else if (!strcmp(op, "N")) {
 			printf("N");
+		}
+		else if (!strcmp(op, "Z")) {
+			memset(slots, 0, sizeof(slots));
+			mtd.cygprof_dummy = 0;
+			printf("Z");
 		}
 		else if (!strcmp(op, "E")) {
 			struct mcount_regs regs;
